@@ -1,9 +1,15 @@
 package etrace
 
 import (
+	"database/sql"
 	"fmt"
+	"os"
+	"path/filepath"
 	"sort"
 
+	_ "github.com/glebarez/go-sqlite"
+	"github.com/sarchlab/akita/v5/hooking"
+	"github.com/sarchlab/akita/v5/simulation"
 	"github.com/sarchlab/akita/v5/timing"
 	"github.com/sarchlab/akita/v5/tracing"
 
@@ -20,7 +26,36 @@ type DEv struct {
 
 type T36 struct {
 	Evs []DEv `json:"evs"`
+	// Via is how the events reach the tracer: 0 by calling it, 1 through the hook
+	// that tracing.CollectTrace installs on a component, 2 through a component
+	// registered with a real simulation.Simulation (its tracer, engine clock and
+	// SQLite recorder)
+	Via int `json:"via,omitempty"`
 }
+
+// dom36 is the component the task events belong to.
+type dom36 struct {
+	*hooking.HookableBase
+	clk timing.TimeTeller
+}
+
+func (d *dom36) Name() string                       { return "Comp" }
+func (d *dom36) CurrentTime() timing.VTimeInPicoSec { return d.clk.CurrentTime() }
+
+type ev36 struct {
+	t   timing.VTimeInPicoSec
+	act func()
+}
+
+func (e ev36) Time() timing.VTimeInPicoSec { return e.t }
+func (e ev36) HandlerID() string           { return "verif36" }
+func (e ev36) IsSecondary() bool           { return false }
+
+type h36 struct{}
+
+func (h36) Handle(e timing.Event) error { e.(ev36).act(); return nil }
+
+var sim36Seq int
 
 type clock struct{ now timing.VTimeInPicoSec }
 
@@ -94,15 +129,78 @@ func genT36(r *kit.Rand, tier kit.Tier) T36 {
 		}
 	}
 
+	c.Via = r.Weighted(2, 2, 1)
+
 	return c
 }
 
-func execT36(c T36, _ *kit.Env) kit.Outcome {
+func execT36(c T36, env *kit.Env) kit.Outcome {
 	var out kit.Outcome
 
 	clk := &clock{}
 	rec := NewMemRecorder()
-	db := tracing.NewDBTracer(clk, rec)
+
+	var (
+		db   *tracing.DBTracer
+		dom  *dom36
+		sim  *simulation.Simulation
+		path string
+		acts []ev36
+		now  = func() timing.VTimeInPicoSec { return clk.now }
+	)
+
+	switch c.Via {
+	case 0:
+		db = tracing.NewDBTracer(clk, rec)
+	case 1:
+		db = tracing.NewDBTracer(clk, rec)
+		dom = &dom36{HookableBase: hooking.NewHookableBase(), clk: clk}
+		tracing.CollectTrace(dom, db)
+	default:
+		sim36Seq++
+		path = filepath.Join("/dev/shm", "verif-"+filepath.Base(env.Scratch), fmt.Sprintf("c36-%d", sim36Seq))
+		_ = os.MkdirAll(filepath.Dir(path), 0o755)
+
+		defer os.Remove(path + ".sqlite3")
+
+		sim = simulation.MakeBuilder().WithoutMonitoring().WithOutputFileName(path).Build()
+		eng := sim.GetEngine()
+		eng.(timing.HandlerRegistrar).RegisterHandler("verif36", h36{})
+		dom = &dom36{HookableBase: hooking.NewHookableBase(), clk: eng}
+		sim.RegisterComponent(dom)
+		db = sim.GetVisTracer()
+		now = eng.CurrentTime
+	}
+
+	// deliver hands one task event to the tracer the way the case says
+	deliver := func(pos *hooking.HookPos, item any) {
+		if dom != nil {
+			dom.InvokeHook(hooking.HookCtx{Domain: dom, Pos: pos, Item: item})
+			return
+		}
+
+		switch v := item.(type) {
+		case tracing.TaskStart:
+			db.StartTask(v)
+		case tracing.TaskEnd:
+			db.EndTask(v)
+		case tracing.TaskTag:
+			db.AddTaskTag(v)
+		case tracing.Milestone:
+			db.AddMilestone(v)
+		}
+	}
+
+	// do runs the call now (the harness clock is already at the event's time) or
+	// leaves it to an engine event of the simulation
+	do := func(t uint64, f func()) {
+		if sim == nil {
+			f()
+			return
+		}
+
+		acts = append(acts, ev36{timing.VTimeInPicoSec(t), f})
+	}
 
 	type mtask struct {
 		start   DEv
@@ -127,7 +225,10 @@ func execT36(c T36, _ *kit.Env) kit.Outcome {
 		switch e.Op {
 		case "start":
 			loc := fmt.Sprintf("Comp%d.req_in", e.ID%3)
-			db.StartTask(tracing.TaskStart{ID: e.ID, ParentID: e.ID / 2, Kind: "req_in", What: e.What, Location: loc, Time: clk.now})
+			e := e
+			do(e.T, func() {
+				deliver(tracing.HookPosTaskStart, tracing.TaskStart{ID: e.ID, ParentID: e.ID / 2, Kind: "req_in", What: e.What, Location: loc, Time: now()})
+			})
 
 			if early := tasks[e.ID]; early != nil && !early.started {
 				early.start, early.record, early.running, early.started = e, on, true, true
@@ -135,7 +236,8 @@ func execT36(c T36, _ *kit.Env) kit.Outcome {
 				tasks[e.ID] = &mtask{start: e, record: on, running: true, started: true, mileAt: map[uint64]bool{}}
 			}
 		case "end":
-			db.EndTask(tracing.TaskEnd{ID: e.ID, Time: clk.now})
+			e := e
+			do(e.T, func() { deliver(tracing.HookPosTaskEnd, tracing.TaskEnd{ID: e.ID, Time: now()}) })
 
 			m := tasks[e.ID]
 			if !m.running {
@@ -155,7 +257,10 @@ func execT36(c T36, _ *kit.Env) kit.Outcome {
 			}
 
 			sideID++
-			db.AddTaskTag(tracing.TaskTag{ID: sideID, TaskID: e.ID, What: e.What, Time: clk.now})
+			e, id := e, sideID
+			do(e.T, func() {
+				deliver(tracing.HookPosTaskTag, tracing.TaskTag{ID: id, TaskID: e.ID, What: e.What, Time: now()})
+			})
 			tasks[e.ID].tags = append(tasks[e.ID].tags, fmt.Sprintf("{ID:%d TaskID:%d Time:%v What:%s}", sideID, e.ID, float64(e.T), e.What))
 		case "mile":
 			if tasks[e.ID] == nil {
@@ -163,14 +268,17 @@ func execT36(c T36, _ *kit.Env) kit.Outcome {
 			}
 
 			sideID++
-			db.AddMilestone(tracing.Milestone{ID: sideID, TaskID: e.ID, Time: clk.now, Kind: tracing.MilestoneKindQueue, What: e.What})
+			e, id := e, sideID
+			do(e.T, func() {
+				deliver(tracing.HookPosMilestone, tracing.Milestone{ID: id, TaskID: e.ID, Time: now(), Kind: tracing.MilestoneKindQueue, What: e.What})
+			})
 
 			if m := tasks[e.ID]; !m.mileAt[e.T] {
 				m.mileAt[e.T] = true
 				m.miles = append(m.miles, fmt.Sprintf("{ID:%d TaskID:%d Time:%v Kind:queue What:%s}", sideID, e.ID, float64(e.T), e.What))
 			}
 		case "on":
-			db.StartTracing()
+			do(e.T, db.StartTracing)
 
 			on, onAt = true, e.T
 
@@ -180,14 +288,26 @@ func execT36(c T36, _ *kit.Env) kit.Outcome {
 				}
 			}
 		case "off":
-			db.StopTracing()
+			do(e.T, db.StopTracing)
 
 			on = false
 			wantSegs = append(wantSegs, fmt.Sprintf("{StartTime:%v EndTime:%v}", float64(onAt), float64(e.T)))
 		}
 	}
 
-	db.Terminate()
+	if sim != nil {
+		for _, a := range acts {
+			sim.GetEngine().Schedule(a)
+		}
+
+		if err := sim.GetEngine().Run(); err != nil {
+			panic(kit.HarnessError(err.Error()))
+		}
+
+		sim.Terminate()
+	} else {
+		db.Terminate()
+	}
 
 	if on {
 		wantSegs = append(wantSegs, fmt.Sprintf("{StartTime:%v EndTime:%v}", float64(onAt), float64(clk.now)))
@@ -195,6 +315,11 @@ func execT36(c T36, _ *kit.Env) kit.Outcome {
 
 	render := func(table string) []string {
 		var l []string
+
+		if sim != nil {
+			l = readSim36(path+".sqlite3", table)
+		}
+
 		for _, e := range rec.Tables[table] {
 			l = append(l, fmt.Sprintf("%+v", e))
 		}
@@ -223,10 +348,63 @@ func execT36(c T36, _ *kit.Env) kit.Outcome {
 	out.Probe("tasks-recorded", len(wantTasks))
 	out.Probe("tasks-not-recorded", len(tasks)-len(wantTasks))
 	out.NonTrivial = len(wantTasks) >= 1 && len(tasks) > len(wantTasks)
-	out.Shape = fmt.Sprint(c.Evs)
-	out.Sample = map[string]any{"calls": len(c.Evs), "tasks": len(tasks), "recorded": len(wantTasks), "windows": windows}
+	out.Shape = fmt.Sprint(c.Via, c.Evs)
+	out.Probe([]string{"delivered-by-direct-call", "delivered-through-CollectTrace-hook", "delivered-through-simulation"}[min(c.Via, 2)], 1)
+	out.Sample = map[string]any{"via": c.Via, "calls": len(c.Evs), "tasks": len(tasks), "recorded": len(wantTasks), "windows": windows}
 
 	return out
+}
+
+// readSim36 renders the rows of one tracer table of the simulation's SQLite
+// output the way the in-memory recorder's entries print.
+func readSim36(file, table string) []string {
+	db, err := sql.Open("sqlite", file)
+	if err != nil {
+		panic(kit.HarnessError("cannot open the simulation's trace database: " + err.Error()))
+	}
+
+	defer db.Close()
+
+	var l []string
+
+	q := map[string]string{
+		"trace":           "SELECT t.ID, t.ParentID, t.Kind, t.What, l.Locale, t.StartTime, t.EndTime FROM trace t JOIN location l ON t.Location = l.ID",
+		"tag":             "SELECT ID, TaskID, Time, What FROM tag",
+		"milestone":       "SELECT ID, TaskID, Time, Kind, What FROM milestone",
+		"daisen$segments": "SELECT StartTime, EndTime FROM \"daisen$segments\"",
+	}[table]
+
+	rows, err := db.Query(q)
+	if err != nil {
+		panic(kit.HarnessError("reading " + table + ": " + err.Error()))
+	}
+
+	defer rows.Close()
+
+	for rows.Next() {
+		var (
+			id, pid, task   uint64
+			kind, what, loc string
+			t0, t1          float64
+		)
+
+		switch table {
+		case "trace":
+			_ = rows.Scan(&id, &pid, &kind, &what, &loc, &t0, &t1)
+			l = append(l, fmt.Sprintf("{ID:%d ParentID:%d Kind:%s What:%s Location:%s StartTime:%v EndTime:%v}", id, pid, kind, what, loc, t0, t1))
+		case "tag":
+			_ = rows.Scan(&id, &task, &t0, &what)
+			l = append(l, fmt.Sprintf("{ID:%d TaskID:%d Time:%v What:%s}", id, task, t0, what))
+		case "milestone":
+			_ = rows.Scan(&id, &task, &t0, &kind, &what)
+			l = append(l, fmt.Sprintf("{ID:%d TaskID:%d Time:%v Kind:%s What:%s}", id, task, t0, kind, what))
+		default:
+			_ = rows.Scan(&t0, &t1)
+			l = append(l, fmt.Sprintf("{StartTime:%v EndTime:%v}", t0, t1))
+		}
+	}
+
+	return l
 }
 
 func multisetDiff(want, got []string) string {
@@ -271,9 +449,9 @@ func multisetDiff(want, got []string) string {
 func init() {
 	kit.Register(kit.Spec[T36]{
 		ID: "C36", Level: "exploration",
-		Rule:        "generated call sequences on the real DBTracer (task starts/ends, second ends of tasks that already ended, tags and milestones inside lifetimes incl. several milestones at one instant and some arriving just before their task's start event, StartTracing/StopTracing windows opening and closing anywhere, tasks left running at Terminate) over an in-memory DataRecorder and a settable clock; a reference decides which tasks must be recorded (tracing on at start, or a window opened while running, and ended before Terminate) with which tags, de-duplicated milestones and segments; the four tables must equal the expected multisets; distinct = call sequence; non-trivial = some tasks recorded and some not",
+		Rule:        "generated call sequences on the real DBTracer (task starts/ends, second ends of tasks that already ended, tags and milestones inside lifetimes incl. several milestones at one instant and some arriving just before their task's start event, StartTracing/StopTracing windows opening and closing anywhere, tasks left running at Terminate) over an in-memory DataRecorder and a settable clock; the events reach the tracer by direct call (2 in 5), through the hook tracing.CollectTrace installs on a component (2 in 5), or through a component registered with a real simulation.Simulation built WithoutMonitoring, driven by engine events, recorded by its SQLite recorder and read back with SQL (1 in 5); a reference decides which tasks must be recorded (tracing on at start, or a window opened while running, and ended before Terminate) with which tags, de-duplicated milestones and segments; the four tables must equal the expected multisets; distinct = call sequence; non-trivial = some tasks recorded and some not",
 		Assumptions: []string{"StartTracing and StopTracing alternate (a window is opened before it is closed)", "the SQLite recorder underneath is C35's subject and is replaced by an in-memory recorder here"},
-		Real:        []string{"tracing/dbtracer.go"},
+		Real:        []string{"tracing/dbtracer.go", "tracing/tracehook.go (CollectTrace)", "simulation.Simulation (RegisterComponent, GetVisTracer, Terminate), serial engine and SQLite data recorder in the third delivery mode"},
 		Stubs:       []string{"in-memory DataRecorder", "settable clock", "call-sequence generator"},
 		FaultKinds:  []string{"tracing-window"},
 		Quick:       kit.Budget{Runs: 20000, WallS: 60},
@@ -281,6 +459,10 @@ func init() {
 		Gen:         genT36, Exec: execT36,
 		Shrink: func(c T36) []T36 {
 			var out []T36
+
+			if c.Via > 0 {
+				out = append(out, T36{Evs: c.Evs, Via: c.Via - 1}) // a simpler way of delivery
+			}
 
 			for _, l := range kit.ListShrinks(c.Evs) {
 				// keep the sequence well formed: every referenced task started before and not ended
@@ -321,7 +503,7 @@ func init() {
 				}
 
 				if ok {
-					out = append(out, T36{Evs: l})
+					out = append(out, T36{Evs: l, Via: c.Via})
 				}
 			}
 
